@@ -86,12 +86,12 @@ template <typename Scalar>
 Scalar MASA::burgers_equation<Scalar>::eval_q_v_transient_viscous (Scalar x, Scalar y, Scalar t)
 //Scalar MASA::burgers_equation<Scalar>::eval_q_v (Scalar x, Scalar y, Scalar t)
 {
-  double Qv_tv;
-  double U;
-  double V;
-  double Q_v_time;
-  double Q_v_convection;
-  double Q_v_dissipation;
+  Scalar Qv_tv;
+  Scalar U;
+  Scalar V;
+  Scalar Q_v_time;
+  Scalar Q_v_convection;
+  Scalar Q_v_dissipation;
   U = u_0 + u_x * sin(a_ux * PI * x / L) + u_y * cos(a_uy * PI * y / L) + u_t * cos(a_ut * PI * t / L);
   V = v_0 + v_x * cos(a_vx * PI * x / L) + v_y * sin(a_vy * PI * y / L) + v_t * sin(a_vt * PI * t / L);
 
@@ -112,11 +112,11 @@ Scalar MASA::burgers_equation<Scalar>::eval_q_v_transient_viscous (Scalar x, Sca
 template <typename Scalar>
 Scalar MASA::burgers_equation<Scalar>::eval_q_v_steady_viscous (Scalar x, Scalar y)
 {
-  double Qv_sv;
-  double U;
-  double V;
-  double Q_v_convection;
-  double Q_v_dissipation;
+  Scalar Qv_sv;
+  Scalar U;
+  Scalar V;
+  Scalar Q_v_convection;
+  Scalar Q_v_dissipation;
   U = u_0 + u_x * sin(a_ux * PI * x / L) + u_y * cos(a_uy * PI * y / L);
   V = v_0 + v_x * cos(a_vx * PI * x / L) + v_y * sin(a_vy * PI * y / L);
 
@@ -136,11 +136,11 @@ template <typename Scalar>
 //Scalar MASA::burgers_equation<Scalar>::eval_q_v_transient_inviscid (Scalar x, Scalar y, Scalar t)
 Scalar MASA::burgers_equation<Scalar>::eval_q_v (Scalar x,Scalar y,Scalar t)
 {
-  double Qv_tinv;
-  double U;
-  double V;
-  double Q_v_time;
-  double Q_v_convection;
+  Scalar Qv_tinv;
+  Scalar U;
+  Scalar V;
+  Scalar Q_v_time;
+  Scalar Q_v_convection;
   U = u_0 + u_x * sin(a_ux * PI * x / L) + u_y * cos(a_uy * PI * y / L) + u_t * cos(a_ut * PI * t / L);
   V = v_0 + v_x * cos(a_vx * PI * x / L) + v_y * sin(a_vy * PI * y / L) + v_t * sin(a_vt * PI * t / L);
 
@@ -159,10 +159,10 @@ Scalar MASA::burgers_equation<Scalar>::eval_q_v (Scalar x,Scalar y,Scalar t)
 template <typename Scalar>
 Scalar MASA::burgers_equation<Scalar>::eval_q_v_steady_inviscid (Scalar x, Scalar y)
 {
-  double Qv_sinv;
-  double U;
-  double V;
-  double Q_v_convection;
+  Scalar Qv_sinv;
+  Scalar U;
+  Scalar V;
+  Scalar Q_v_convection;
   U = u_0 + u_x * sin(a_ux * PI * x / L) + u_y * cos(a_uy * PI * y / L);
   V = v_0 + v_x * cos(a_vx * PI * x / L) + v_y * sin(a_vy * PI * y / L);
 
@@ -178,12 +178,12 @@ Scalar MASA::burgers_equation<Scalar>::eval_q_v_steady_inviscid (Scalar x, Scala
 template <typename Scalar>
 Scalar MASA::burgers_equation<Scalar>::eval_q_u_transient_viscous (Scalar x,Scalar y,Scalar t)
 {
-  double Qu_tv;
-  double U;
-  double V;
-  double Q_u_time;
-  double Q_u_convection;
-  double Q_u_dissipation;
+  Scalar Qu_tv;
+  Scalar U;
+  Scalar V;
+  Scalar Q_u_time;
+  Scalar Q_u_convection;
+  Scalar Q_u_dissipation;
   U = u_0 + u_x * sin(a_ux * PI * x / L) + u_y * cos(a_uy * PI * y / L) + u_t * cos(a_ut * PI * t / L);
   V = v_0 + v_x * cos(a_vx * PI * x / L) + v_y * sin(a_vy * PI * y / L) + v_t * sin(a_vt * PI * t / L);
 
@@ -204,11 +204,11 @@ Scalar MASA::burgers_equation<Scalar>::eval_q_u_transient_viscous (Scalar x,Scal
 template <typename Scalar>
 Scalar MASA::burgers_equation<Scalar>::eval_q_u_steady_viscous (Scalar x, Scalar y)
 {
-  double Qu_sv;
-  double U;
-  double V;
-  double Q_u_convection;
-  double Q_u_dissipation;
+  Scalar Qu_sv;
+  Scalar U;
+  Scalar V;
+  Scalar Q_u_convection;
+  Scalar Q_u_dissipation;
   U = u_0 + u_x * sin(a_ux * PI * x / L) + u_y * cos(a_uy * PI * y / L);
   V = v_0 + v_x * cos(a_vx * PI * x / L) + v_y * sin(a_vy * PI * y / L);
 
@@ -227,11 +227,11 @@ template <typename Scalar>
 //Scalar MASA::burgers_equation<Scalar>::eval_q_u_transient_inviscid (Scalar x, Scalar y, Scalar t)
 Scalar MASA::burgers_equation<Scalar>::eval_q_u (Scalar x,Scalar y,Scalar t)
 { 
-  double Qu_tinv;
-  double U;
-  double V;
-  double Q_u_time;
-  double Q_u_convection;
+  Scalar Qu_tinv;
+  Scalar U;
+  Scalar V;
+  Scalar Q_u_time;
+  Scalar Q_u_convection;
   U = u_0 + u_x * sin(a_ux * PI * x / L) + u_y * cos(a_uy * PI * y / L) + u_t * cos(a_ut * PI * t / L);
   V = v_0 + v_x * cos(a_vx * PI * x / L) + v_y * sin(a_vy * PI * y / L) + v_t * sin(a_vt * PI * t / L);
 
@@ -250,10 +250,10 @@ Scalar MASA::burgers_equation<Scalar>::eval_q_u (Scalar x,Scalar y,Scalar t)
 template <typename Scalar>
 Scalar MASA::burgers_equation<Scalar>::eval_q_u_steady_inviscid (Scalar x, Scalar y)
 {
-  double Qu_sinv;
-  double U;
-  double V;
-  double Q_u_convection;
+  Scalar Qu_sinv;
+  Scalar U;
+  Scalar V;
+  Scalar Q_u_convection;
   U = u_0 + u_x * sin(a_ux * PI * x / L) + u_y * cos(a_uy * PI * y / L);
   V = v_0 + v_x * cos(a_vx * PI * x / L) + v_y * sin(a_vy * PI * y / L);
 
